@@ -291,6 +291,36 @@ def reduce_coverage(facts, res):
                               "one merge statement mixes the fields %s: a counter is merged into another one" % sorted(names))
 
 
+def merge_accumulates(facts, res, R="C18.3.merge-accumulates"):
+    """Timers::Reduce seeds the result from its first operand and calls `field.merge(other.field)` for the second: the merged value holds both
+    operands only if merge() ADDS its argument's state to the object's (`+=` from the argument's same member, or x = x + other.x)."""
+    n = 0
+    cands = [g for g in facts.functions if g["name"] == "merge" and g.get("cls") == "TbfTimer" and tbf.body(g) is not None and not g.get("inst") and len(g["params"]) == 1]
+    if len(cands) != 1:
+        raise AnalysisBroken("TbfTimer::merge(const TbfTimer&) not found (%d candidates)" % len(cands))
+    g = cands[0]
+    p = g["params"][0]["did"]
+    fields = set(f["name"] for c in facts.classes if c["name"] == "TbfTimer" for f in c.get("fields", []))
+    stores = []
+    for x in walk(tbf.body(g)):
+        if x.get("k") in ("BinaryOperator", "CompoundAssignOperator", "CXXOperatorCallExpr") and x.get("op") in ("=", "+="):
+            l, r = (kids(x)[0], kids(x)[1]) if x.get("k") != "CXXOperatorCallExpr" else (kids(x)[1], kids(x)[2])
+            l = strip(l)
+            if l.get("k") in ("MemberExpr", "CXXDependentScopeMemberExpr") and l.get("name") in fields:
+                from_arg = any(z.get("k") in ("MemberExpr", "CXXDependentScopeMemberExpr") and z.get("name") == l["name"] and kids(z) and strip(kids(z)[0]).get("did") == p for z in walk(r))
+                keeps_own = x.get("op") == "+=" or any(z.get("k") in ("MemberExpr", "CXXDependentScopeMemberExpr") and z.get("name") == l["name"] and (not kids(z) or strip(kids(z)[0]).get("k") == "CXXThisExpr") for z in walk(r))
+                stores.append((x, l["name"], from_arg, keeps_own))
+    if not stores:
+        raise AnalysisBroken("TbfTimer::merge: no store to a member found")
+    for x, nm, from_arg, keeps_own in stores:
+        n += 1
+        res.instance(R, "TbfTimer::merge %s" % nm, facts.loc(x), "`%s`: takes the argument's %s: %s, keeps its own: %s" % (facts.ntext(x)[:50], nm, from_arg, keeps_own))
+        if from_arg and not keeps_own:
+            res.violation(R, tbf.rel(facts.path_of(x)), g["qname"], "overwrites:%s" % nm, x["l"][1],
+                          "merge() assigns the argument's '%s' instead of adding it: Timers::Reduce(a, b), the documented way to merge the per-worker timers, returns b's time and drops a's - merged over n workers only the last worker's time is left" % nm)
+    return n
+
+
 def apply_to_all(facts, res):
     for cls in EXECUTORS:
         ms = [m for m in facts.methods_of(cls) if m["name"] == "applyToAllKernels"]
@@ -434,6 +464,7 @@ def run(res, tier):
     k = increments(facts, res)
     res.floor("C18.2", k, 8, "counter operators")
     reduce_coverage(facts, res)
+    res.floor("C18.3.merge-accumulates", merge_accumulates(facts, res), 1, "stores of TbfTimer::merge")
     apply_to_all(facts, res)
     kernel_vector_lifetime(facts, res)
     res.rule("C18.5 counters travel with the kernel object: a declared move constructor / assignment of a counting decorator takes its state from the argument; a declared copy without a declared move (the implicit move is then suppressed) must take it too")
